@@ -194,7 +194,10 @@ class SdoClient {
   // block upload; the acknowledge pattern and block sizes come from the tape
   SdoRes upload_blk(uint16_t idx, uint8_t sub, uint8_t blksize, int max_partial, bool tape_acks, const std::vector<uint8_t> *expect = nullptr) {
     SdoRes res; VLOG(c, " block upload %04X:%02X blksize %u", idx, sub, blksize);
-    Frame q = mk(0xA0, idx, sub, blksize);   // cc=0, pst=0
+    // pst=0; the client announces CRC support (cc=1, command A4h) for a third of the (object, block size) combinations - derived, not drawn, so the
+    // saved tapes keep their meaning; a server that does not support CRC simply answers sc=0 and none is used
+    bool cc = (idx + sub + blksize) % 3 == 0; if (cc) c.cls("block-upload-client-announces-crc-support");
+    Frame q = mk(cc ? 0xA4 : 0xA0, idx, sub, blksize);
     Frame r = one(q, "block upload initiate"); res.requests++;
     if (is_abort(r, idx, sub, res)) return res;
     CHECK(c, (r.d[0] & 0xF9) == 0xC0, "blk-ul-init-response", "block upload initiate answered with command %02X (C2h expected)", r.d[0]);
